@@ -29,6 +29,13 @@ def unit_spec(programs: List[Dict[str, Any]], library: Optional[List[Dict[str, A
         msgs.append({"kind": kind, "name": p["pid"], "params": p["params"]})
         if kind == "REQUEST":
             svcs.append({"name": "svc_" + p["pid"], "request": p["pid"]})
+        elif kind in ("POS-RESPONSE", "NEG-RESPONSE"):
+            # responses belong to a service whose request is 22 <16 bit id>: one constant byte, then a free value
+            rq = "rq_" + p["pid"]
+            msgs.append({"kind": "REQUEST", "name": rq, "params": [
+                {"t": "CODED-CONST", "name": "sid", "dct": {"k": "STD", "base": "A_UINT32", "bits": 8}, "value": 0x22},
+                {"t": "VALUE", "name": "did", "dop": "u16"}]})
+            svcs.append({"name": "svc_" + p["pid"], "request": rq, "pos" if kind == "POS-RESPONSE" else "neg": [p["pid"]]})
     layer = {"type": "BASE-VARIANT", "name": LAYER, "dops": dops, "msgs": msgs, "svcs": svcs}
     return {"containers": [{"name": "C", "layers": [layer]}]}
 
@@ -37,6 +44,7 @@ class Loaded:
 
     def __init__(self, programs: List[Dict[str, Any]], library: Optional[List[Dict[str, Any]]] = None) -> None:
         self.spec = unit_spec(programs, library)
+        self.progs = {p["pid"]: p for p in programs}
         layer_spec = self.spec["containers"][0]["layers"][0]
         self.interp = refodx.Interp(layer_spec)
         self.db = emit.load_db(self.spec)
